@@ -13,7 +13,9 @@ ID = 'C12'
 RULE = ('(a) Hypothesis documents (profile "full" without blank lines) in which 1-4 cells (notes, rests, chords, '
         'interpretations, barlines, nulls, lyrics - never headers or spine operators) are replaced by malformed text '
         'of four labelled kinds: unknown character (outside the lexer vocabulary, at any position of a note/rest/chord/'
-        'barline), truncated token, wrong order, complete token + garbage.  Oracle: differential against the import of '
+        'barline), truncated token, wrong order, complete token + garbage - plus randomly edited notes (insert / delete / '
+        'swap / replace a character) whose validity the harness does not know: for those only isolation, single '
+        'reporting and "no character silently lost" are required.  Oracle: differential against the import of '
         'the undamaged document: loads does not raise; exactly one ErrorToken per damaged **kern/**root cell with its '
         'text and 1-based line, none for other spines; every undamaged token has the same class, category, encoding and '
         'export; dumps shows every damaged cell verbatim in place.  (b) a Hypothesis RuleBasedStateMachine that keeps '
@@ -49,7 +51,7 @@ def cases(draw):
     same_text = draw(st.integers(0, 2)) == 0
     first = None
     for (i, k) in picks:
-        m = draw(MF.malformed())
+        m = draw(MF.malformed(with_mutated=True))
         if same_text and first is not None:
             m = dict(first)  # the same malformed text in several cells
         first = first or m
@@ -93,7 +95,7 @@ def check(case):
     problems = []
     got_err = sorted((e.line, e.encoding) for e in errs)
     strict_exp = sorted((phys[r], d['t']) for (r, c), d in dmg.items() if d['typ'] in KERNLIKE and d['strict'])
-    loose_exp = sorted((phys[r], d['t']) for (r, c), d in dmg.items() if d['typ'] in KERNLIKE and not d['strict'])
+    loose_exp = sorted((phys[r], d['t']) for (r, c), d in dmg.items() if d['typ'] in KERNLIKE and not d['strict'])  # incl. mutated
     # errors that correspond to no damaged kern cell, or are reported more than once
     allowed = strict_exp + loose_exp
     extra = list(got_err)
@@ -140,6 +142,18 @@ def check(case):
         if g in K.NULLS:
             doc3['rows'][ri]['c'][k] = dict(doc3['rows'][ri]['c'][k], k='null')
         reported = (phys[ri], d['t']) in got_err
+        if d['kind'] == 'mutated' and not reported and d['typ'] in KERNLIKE:
+            # the edited token was accepted: it may be a valid token (then the export is its normal form), but nothing
+            # the cell contained may be lost silently
+            lost = set(d['t']) - set(g) - ({'0', '1', '2', '3', '4', '5', '6', '7', '8', '9'} if d['t'].startswith('=') else set())
+            if any('r' in m and not any(ch in 'abcdefgABCDEFG' for ch in m) for m in g.split(' ')):
+                lost -= {'/', '\\'}  # stems on rests are discarded by design
+            if tok.category.name == 'ERROR':
+                problems.append(Problem('error-token-not-reported', f'{d["t"]!r} became an ErrorToken that is not in the errors list'))
+            elif lost:
+                problems.append(Problem('not-verbatim', f'edited cell {d["t"]!r} ({d["typ"]}, line {phys[ri]}) was accepted without error but is exported as {g!r}: {sorted(lost)} lost\n{text2}',
+                                        {'t': d['t'], 'got': g, 'reported': False, 'kind': 'trail', 'typ': d['typ']}))
+            continue
         if g != d['t']:
             problems.append(Problem('not-verbatim', f'malformed cell {d["t"]!r} ({d["kind"]}, {d["typ"]}, line {phys[ri]}) is imported/exported as {g!r}'
                                     f' (error reported: {reported})\n{text2}',
